@@ -28,6 +28,30 @@ NEEDS = {
  "C17-b1": ("Display fast path swallows the sink error of the '-' write", "negative value in plain notation through a streaming collect_str whose sink fails exactly on the sign fragment and then recovers"),
  "C17-b2": ("json_num limit check lost abs()", "json_num with resulting scale above +150000"),
  "C17-b3": ("f64 infinity test misses -inf", "a non-JSON peer handing visit_f64(-inf)"),
+ "C04-c1": ("exponent printed through `as i32` behind an unsigned 32-bit guard in {:e}/{:E}/Display's E form", "printed exponent magnitude in [2^31, 2^32)"),
+ "C04-c2": ("zero never takes Display's leading-zero exponent branch", "zero with scale > 6: breaks only the bounded-length / threshold clause, the text still round-trips"),
+ "C04-c3": ("parser reads exponent fields of <= 10 characters as i32", "scientific / engineering notation (no '+' printed) with exponent in 2147483648..9999999999"),
+ "C04-d1": ("parser reads exponent fields of <= 10 characters as i32 (helper variant)", "scientific / engineering notation with exponent in 2^31..10^10"),
+ "C04-d2": ("plain notation writes leading zeros in blocks and discards the sink's errors", "pure fraction written by write_plain_string into a sink that refuses a zero block and accepts the digits"),
+ "C04-d3": ("zero filtered out of Display's trailing-zero count", "zero with scale <= -16, compared on digits and scale"),
+ "C12-c1": ("u64 power-of-ten fast path taken for 10^20 in to_owned_with_scale", "digits(x) + p equal to 18 or 19: the Newton loop never converges (release) / debug_assert (debug)"),
+ "C12-c2": ("operand truncated to p+3 digits before the iteration", "terminating reciprocal of a long 2^i 5^j operand at or just above its exact length under Up / Ceiling: 16 of 39711 grid cells"),
+ "C12-c3": ("`1.0 / x` shortcut for +-1 x 10^k always returns a positive one", "float `1.0 / x` operator form, negative x stored with digits exactly -1"),
+ "C12-d1": ("iteration budget exactly tight for the normal initial guess", "323-digit coefficient of exactly 1073 bits (subnormal exp2 result with one significant bit), p in 16..19 / 33..42 / 65..89 / 129..150; platform dependent"),
+ "C12-d2": ("range check on the bit count (1075) replaces the check on the exp2 result", "coefficient of exactly 1075 bits, or any of 1023..1075 bits on a platform that flushes subnormal exp2 results: the guess is 0 and so is the result"),
+ "C12-d3": ("power-of-ten fast path in inverse_with_context before the sign is copied", "negative x stored with coefficient exactly -1"),
+ "C14-c1": ("integral fast path through a saturating `as i64` (f32 and f64)", "exactly +2^63"),
+ "C14-c2": ("u32 cast after stripping exactly 20 trailing zero bits", "f64 with negative binary exponent whose mantissa has exactly 20 trailing zero bits (2^-21 per random mantissa) or integers in [2^32, 2^33)"),
+ "C14-c3": ("u128 shift fast path one binade too wide", "f64 with exponent field 1151 (|n| in [2^128, 2^129))"),
+ "C14-d1": ("exact-division fast path guarded by an estimated digit count (16 instead of 15)", "16-17 digit integers above 2^53 with scale 1..22; constant table, so the powi seam cannot expose it"),
+ "C14-d2": ("early overflow exit treats f64::MAX_10_EXP as exclusive", "digits = 1, scale = -308 exactly (1e308)"),
+ "C14-d3": ("zero special case removed from to_f64", "zero with scale < -308: 0 * inf = NaN"),
+ "C17-c1": ("json_num integer fast path serializes the magnitude of large negative integers", "json_num, scale 0, negative, magnitude in (2^63, 2^64)"),
+ "C17-c2": ("json_num_option limit check became a half-open range", "Option adapter, Some value with scale exactly +150000"),
+ "C17-c3": ("JSON adapters use plain notation for small exponent forms", "zero with scale in -32..=-16 through either JSON adapter"),
+ "C17-d1": ("json_num_option turns a parse error into None", "JSON number whose exponent magnitude is about 2^63 or more in an Option field"),
+ "C17-d2": ("scale limit compared in 32 bits (build.rs + both checks)", "exponent whose magnitude mod 2^32 is <= 150000, e.g. 1e4294967296"),
+ "C17-d3": ("visit_map accepts any single key", "a JSON object with exactly one entry where a decimal is expected, e.g. {\"amount\": 12.5}"),
 }
 def sh(cmd, **kw):
     return subprocess.run(cmd, shell=True, capture_output=True, text=True, **kw)
@@ -64,7 +88,7 @@ for name in sorted(os.listdir(os.path.join(HERE, "seeded"))):
     print(name, verdict, rule, "run", run, f"{dt:.0f}s", flush=True)
 if not only:
     with open(os.path.join(HERE, "SENSITIVITY.md"), "w") as f:
-        f.write("# Sensitivity: seeded changes vs. checks\n\nEach change compiles, passes the 861-test suite, and breaks its property (demonstration in `seeded/<id>/demo.rs`, confirmation in `confirmation.txt`). Written by sub-agents that saw only the property text. Regenerate with `tools/run_seeded.py` (applies each patch to /repo, runs the quick check, reverts).\n\n| seeded change | property | quick check | rule that fired | first failing run | what it needs |\n|---|---|---|---|---|---|\n")
+        f.write("# Sensitivity: seeded changes vs. checks\n\nEach change compiles, passes the 861-test suite, and breaks its property (demonstration in `seeded/<id>/demo.rs`, confirmation in `confirmation.txt`). Written by sixteen sub-agents in two rounds that saw only the property text (second round: asked for subtle changes that random testing with a few thousand ordinary inputs would most likely miss). Regenerate with `tools/run_seeded.py` (applies each patch to /repo, runs the quick check, reverts).\n\n| seeded change | property | quick check | rule that fired | first failing run | what it needs |\n|---|---|---|---|---|---|\n")
         for (name, prop, verdict, rule, run) in rows:
             f.write(f"| {name} | {prop} | {verdict} | {rule} | {run} | {NEEDS.get(name, ('',''))[1]} |\n")
         caught = sum(1 for r in rows if r[2] == "CAUGHT")
